@@ -296,17 +296,44 @@ def rand_cfg(r, named=None):
 
 
 def epoch_case(r):
-    """inside / around the class of F17: within a day of the epoch, with fractions and offsets"""
-    cfg = {"deftime": (0, 0, 0, 0), "zone": ["fixed", r.choice([0, 3600, -3600])]}
+    """fractional time stamps within hours of 1970-01-01T00:00Z, written so that civil date and instant
+    often lie on DIFFERENT sides of the epoch (where jiff alone builds a mixed-sign pair; the class of the
+    repaired finding F17), in all three notations, with other spellings of the same instants (equality
+    by instant: the order must fall back to the description) and neighbours 0.1 s / 1 ns away"""
+    zoff = r.choice([0, 3600, -3600, 7200, -34200, 45900])
+    dfrac = r.choice([0, 500000000, 1, 999999999])
+    cfg = {"deftime": (0, 0, 0, dfrac), "zone": ["fixed", zoff]}
     tss = []
-    for _ in range(r.randint(2, 4)):
-        sec = r.randint(-5400, 5400)
-        off = r.choice([0, 3600, -3600, 7200, -7200, 86340, -86340])
+
+    def spell(sec, fr, kind=None):
+        """the instant sec (+ fraction fr) seconds after the epoch, in a random notation"""
+        kind = kind or r.choice(["zoned", "zoned", "zoned", "local"])
+        if kind == "local":
+            off = zoff
+        else:
+            off = r.choice([0, 3600, -3600, 7200, -7200, 86340, -86340, 20700, -34200])
         loc = datetime.datetime(1970, 1, 1) + datetime.timedelta(seconds=sec + off)
-        fr = r.choice(["5", "4", "6", "000000001", "999999999", None, "50"])
-        z = "Z" if off == 0 and r.random() < 0.5 else ("-" if off < 0 else "+", abs(off) // 3600, abs(off) % 3600 // 60)
-        tss.append({"k": "zoned", "y": loc.year, "m": loc.month, "d": loc.day, "h": loc.hour, "mi": loc.minute,
-                    "s": loc.second, "frac": fr, "zone": z})
+        a = {"k": kind, "y": loc.year, "m": loc.month, "d": loc.day, "h": loc.hour, "mi": loc.minute, "s": loc.second, "frac": fr}
+        if kind == "zoned":
+            a["zone"] = "Z" if off == 0 and r.random() < 0.5 else ("-" if off < 0 else "+", abs(off) // 3600, abs(off) % 3600 // 60)
+        return a
+
+    for _ in range(r.randint(1, 3)):
+        sec = r.choice([r.randint(-5400, 5400), r.randint(-90000, 90000), -3600, -1, 0, 1, 3599])
+        fr = r.choice(["5", "4", "6", "000000001", "999999999", "50", "5", "25", None])
+        tss.append(spell(sec, fr))
+        k = r.random()
+        if k < 0.5:                                   # the same instant, written differently
+            fr2 = fr if fr is None or r.random() < 0.5 else (fr + "0" * r.randint(0, 9 - len(fr)))
+            tss.append(spell(sec, fr2))
+        if k > 0.3 and fr is not None:                # a neighbour: 0.1 s or 1 ns earlier / later
+            n = sec * NSEC + frac_ns(fr) + r.choice([-100000000, 100000000, -1, 1])
+            tss.append(spell(n // NSEC, ("%09d" % (n % NSEC)).rstrip("0") or None))
+    if r.random() < 0.35:
+        # date only: the default time (with its fraction) in the journal zone, next to the epoch
+        tss.append({"k": "date", "y": r.choice([1969, 1970, 1970]), "m": 0, "d": 0})
+        tss[-1]["m"], tss[-1]["d"] = (12, 31) if tss[-1]["y"] == 1969 else (1, r.choice([1, 1, 2]))
+    r.shuffle(tss)
     return cfg, tss
 
 
@@ -353,7 +380,7 @@ def gen_cases(run, n):
                  "frac": r.choice([None, "25", "999999999"])}
             b = {"k": "date", "y": civ[0], "m": civ[1], "d": civ[2]}
             cases.append({"cfg": cfg, "items": [(a, render(a)), (b, render(b))], "tags": ["dst-gap-or-fold"]})
-        elif k < 0.52:
+        elif k < 0.56:
             cfg, tss = epoch_case(r)
             cases.append({"cfg": cfg, "items": [(a, render(a)) for a in tss], "tags": ["epoch-window"]})
         elif k < 0.62:
@@ -415,12 +442,9 @@ def main(run):
     for (ci, zi), rr in zip(rmap, res):
         cases[ci]["res"][zi] = rr
 
-    findings = {f["id"]: f for f in load_findings("C16")}
-    f17 = findings.get("F17")
-    f17_open = bool(f17) and f17.get("status") == "open"
     terms, meta = [], []
     stages, tagc = {}, {}
-    n_frame = n_disp = 0
+    n_frame = n_disp = n_regorder = 0
     for ci, c in enumerate(cases):
         rr = c["res"][0] or {}
         st = rr.get("stage", "none")
@@ -468,6 +492,22 @@ def main(run):
                                       {"journal": c["journal"], "config": cfg_toml_kw(c["cfg"]),
                                        "report_zones": ["UTC", c["rzones"][zi][0]],
                                        "under_UTC": base[oi], "under_other": o["results"][oi]})
+        # the register (structured and text) lists the transactions in the order of the transaction set
+        if st == "done" and all(a is not None for a in asts):
+            want = [d for _, d in c["order"]]
+            reg = rr["results"][1].get("ok")
+            if isinstance(reg, list):
+                n_regorder += 1
+                got = [e["txn"]["desc"] for e in reg]
+                if got != want:
+                    run.violation("register entries are not in the order of the transaction set (by instant)",
+                                  {"journal": c["journal"], "config": cfg_toml_kw(c["cfg"]), "transaction_order": want, "register_order": got})
+            txt = rr["results"][4].get("ok")
+            if isinstance(txt, str):
+                got = [ln.split(" '", 1)[1].strip() for ln in txt.split("\n") if ln[:1].isdigit() and " 't" in ln]
+                if got != want:
+                    run.violation("register text is not in the order of the transaction set (by instant)",
+                                  {"journal": c["journal"], "config": cfg_toml_kw(c["cfg"]), "transaction_order": want, "register_text_order": got})
         # display: identity export (own offset) and register label (report zone)
         if st == "done":
             for zi, (zn, zfix) in enumerate(c["rzones"]):
@@ -487,8 +527,7 @@ def main(run):
     if errs:
         raise Infra("coq evaluation failed: " + errs[0])
     distinct = set()
-    n_dom = n_acc = n_cls = n_order = 0
-    witness_reproduced = False
+    n_dom = n_acc = n_cls = n_order = n_order_cls = 0
     for (kind, ci, x), v in zip(meta, vals):
         c = cases[ci]
         b = as_N(v)
@@ -521,17 +560,18 @@ def main(run):
             rep.update({"observed_order": c["order"]})
             if not (b & 4):
                 continue
+            if b & 8:
+                n_order_cls += 1
             if not (b & 2):
-                if (b & 8) and f17_open:
-                    run.known_finding(f17["what"])
-                    if c.get("finding") == "F17":
-                        witness_reproduced = True
-                else:
-                    run.violation("transactions are not ordered by instant", rep)
+                what = "transactions are not ordered by instant"
+                if b & 8:
+                    what += (" (fractional time stamp whose civil date and instant lie on different sides of 1970-01-01T00:00Z: "
+                             "the instant must be compared, not jiff's mixed-sign (second, nanosecond) pair; repaired finding F17 is back)")
+                run.violation(what, rep)
             elif not (b & 1):
                 run.cov["disagreements_checked"] += 1
                 rep["correspondence"] = "C16_corr.c16_order_case (Tstamp.jsort_txns)"
-                run.violation("correspondence broken: model order (jiff pair comparison) differs from the implementation's order", rep, found_input=False)
+                run.violation("correspondence broken: model order (pair comparison on the canonical pairs of Tstamp.parse_ts) differs from the implementation's order", rep, found_input=False)
         else:
             n_disp += 1
             zn, d, il, rl, roff = x
@@ -544,21 +584,17 @@ def main(run):
                 run.cov["disagreements_checked"] += 1
                 rep["correspondence"] = "C16_corr.c16_disp_case (Tstamp.rfc_3339 / as_tz_full)"
                 run.violation("correspondence broken: model display differs from the implementation (labels parse back to the instant)", rep, found_input=False)
-    # the witness of an open finding must keep reproducing (DESIGN 3.5)
-    if f17_open and any(c.get("finding") == "F17" for c in cases) and not witness_reproduced:
-        run.violation("witness of open finding F17 no longer reproduces: model (faithful to the defect) and code disagree",
-                      {"witness": "corpus/C16 (finding F17)", "theorem": "C16_order_refuted",
-                       "action": "update Tstamp.civil_to_jts, drop C16_order_refuted/C16_equality_refuted, prove C16_order_by_instant without epoch_safe, mark F17 fixed"},
-                      found_input=False)
     run.cov["distinct_nontrivial"] = len(distinct)
     run.cov["rule"] = ("one configuration (journal zone fixed offset incl. +-25:59 and sub-minute, or named zone with Python zoneinfo as tz oracle; 5 default times) "
                        "x time stamps in the three notations printed from an AST (years 0000..9999, leap days, fractions of 1-9 digits with trailing zeros, offsets up to +-25:59 / mm up to 99, "
-                       "respellings of the same instant, DST gaps/folds, epoch window, range edge), out-of-range field values and text mutations; loaded as journals; "
-                       "per time stamp: instant+offset vs model and vs spec oracle; per journal: order vs model sort and vs order oracle; per report zone (3 per journal): "
+                       "respellings of the same instant, DST gaps/folds, "
+                       "the epoch window: fractional time stamps whose civil date and instant lie on different sides of 1970-01-01T00:00Z in all notations with respellings and neighbours 1 ns / 0.1 s away, "
+                       "range edge), out-of-range field values and text mutations; loaded as journals; "
+                       "per time stamp: instant+offset vs model and vs spec oracle; per journal: order vs model sort and vs order oracle, register (structured and text) in that order; per report zone (3 per journal): "
                        "register/balance/transaction set identical (frame), identity and register labels vs model display and parsed back; "
                        "non-trivial = accepted time stamp; distinct = distinct (instant, offset) results")
     run.notes.update({"stages_under_UTC": stages, "case_kinds": tagc, "timestamps_in_domain": n_dom, "timestamps_accepted": n_acc,
-                      "timestamps_in_F17_class": n_cls, "order_cases": n_order, "display_cases": n_disp,
+                      "timestamps_epoch_mixed_sign_class": n_cls, "order_cases": n_order, "order_cases_with_epoch_mixed_sign_class": n_order_cls, "display_cases": n_disp, "register_order_comparisons": n_regorder,
                       "report_zone_frame_comparisons": n_frame, "harness_sessions": len(reqs)})
     return run.finish(info)
 
